@@ -285,6 +285,14 @@ func pollRaceLog() []string {
 }
 
 // raceSignature names the first jilio/ebu function of each of the two access stacks.
+// CallerOwned runs f, which writes to memory that the code under test has returned to its
+// caller (a slice from Read, say). Such memory is the caller's: a race report on it is the
+// library's doing (it kept, or handed to someone else, what it gave away) although no frame
+// of the library need be in it - the frame of this function stands in for one.
+//
+//go:noinline
+func CallerOwned(f func()) { f() }
+
 func raceSignature(rep string) (string, bool) {
 	blocks := regexp.MustCompile(`(?m)^(Read|Write|Previous read|Previous write|Atomic|Previous atomic)[^\n]*\n`).Split(rep, -1)
 	var fns []string
@@ -298,6 +306,10 @@ func raceSignature(rep string) (string, bool) {
 				fn = m[1]
 				break
 			}
+		}
+		if fn == "" && strings.Contains(b, "internal/h.CallerOwned") {
+			// not a frame of the library, but memory that the library handed to its caller
+			fns = append(fns, "a caller's write to memory that the library returned to it")
 		}
 		if fn != "" {
 			// strip generic instantiation and closure suffixes for stability
